@@ -702,6 +702,9 @@ func (w *World) streamOp(ci int, conn *rpc.Conn, op *Op) {
 				sz = rec.Plan.Sizes[n]
 			}
 			m := &Msg{ID: id, Server: uint32(op.Stream), Pad: MakePad(id, sz)}
+			if e := rec.Plan.Empty; e > 0 && (n+1)%e == 0 {
+				m, id = &Msg{}, 0
+			}
 			var arg interface{} = m
 			if w.P.Codec == "pb" {
 				arg = (*PBMsg)(m)
@@ -733,7 +736,7 @@ func (w *World) streamOp(ci int, conn *rpc.Conn, op *Op) {
 				rec.ReadErrAtTeardown = w.TearingDown
 				return
 			}
-			if int(m.Server) != op.Stream {
+			if int(m.Server) != op.Stream && !m.isZero() {
 				rec.Foreign++
 			}
 			if !PadOK(m.Pad, m.ID) {
